@@ -51,6 +51,14 @@ CHECKS["C17"] = dict(engine="DEFX", category="model_checking", technique="bounde
   text="1024 definitions (concurrency x queue_limit x start_delay x strategy x depends_on) are rendered to YAML and loaded under every permutation of map iteration order: load fails iff the reference validator says invalid, otherwise the result equals what was written (default concurrency 1); file layouts and duplicate names; Equals is compared with reference equality for every field (by reflection; unknown kinds abort) over all ordered pairs of a value grid.", design="3/C17",
   note="Bounded by the value grids. Map iteration order inside the definition package is owned through the instrumenter's range-over-map rewrite.")
 
+PROCX_NOTE = "Real processes: the kernel / Go runtime schedule is not owned by the checker; exhaustive only over the stated input grammar. The runner is built exactly like app.go's closure."
+CHECKS["C18"] = dict(engine="PROCX", category="exploration", technique="exhaustive enumeration of an input grammar (level subsets x value classes, variable maps, job pairs) executed on the real TaskRunner with real processes; expected bytes computed by a reference precedence model; the OS schedule is not controlled",
+  text="Every assignment of a variable to the subsets of {process, pipeline, task} x ten value classes, observed both as the interpreter expands it and as a child process receives it, in two concurrent jobs with different values and in tasks with / without task-level env; template rendering per job; the reserved variable is refused.", design="3/C18", note=PROCX_NOTE)
+CHECKS["C19"] = dict(engine="PROCX", category="exploration", technique="exhaustive enumeration of an output grammar (stream x size x newline x producer, multi-command tasks, task names, concurrent job pairs) on real processes with the real FileOutputStore and the real /job/logs handler; byte-exact oracle; the OS schedule is not controlled",
+  text="Every output shape of the grammar is produced by builtins and by exec'd commands in jobs that each run twice concurrently with identical task names; the store reader and the log API must return exactly the generated bytes per job, task and stream; an unknown task is refused.", design="3/C19", note=PROCX_NOTE)
+CHECKS["C20"] = dict(engine="PROCX", category="exploration", technique="exhaustive enumeration of a process-tree grammar x cancel instants x cancel modes on real processes; /proc scan for a per-run environment marker after the job is reported finished; the OS schedule is not controlled",
+  text="For every process-tree shape of the grammar (interpreter-level forms x child shell scripts incl. background jobs, pipelines, subshells, interrupt-ignoring children, nesting, helpers daemonised by an earlier command) the job is cancelled (CancelJob at two instants, forced Shutdown); once it is reported finished no process carrying its marker may be alive after kill timeout + allowance; a bystander job's process must survive.", design="3/C20", note=PROCX_NOTE)
+
 PLANNED = {}
 props = [json.loads(l) for l in open('/verif/properties.jsonl')]
 hooks = subprocess.run(['git','-C','/repo','log','--format=%h %s','--grep=^verif hook'],capture_output=True,text=True).stdout.strip().splitlines()
@@ -65,6 +73,7 @@ m = {
    "add_only": True,
  },
  "engines": [
+   {"name": "PROCX", "path": "engine/procx.go", "serves_properties": ["C18", "C19", "C20"], "kind_free_text": "grammar enumeration on the real TaskRunner with real processes (schedule not owned)"},
    {"name": "HTTPX", "path": "engine/httpx.go", "serves_properties": ["C14"], "kind_free_text": "finite-product enumeration against the real HTTP handler"},
    {"name": "DEFX", "path": "engine/defx.go", "serves_properties": ["C17"], "kind_free_text": "bounded exhaustive inputs for loader / validator / Equals"},
    {"name": "CRASHFS", "path": "engine/crashfs.go", "serves_properties": ["C09"], "kind_free_text": "crash-point / fault enumeration over shim/vos"},
